@@ -3080,6 +3080,22 @@ def r9_skip_compares_with_effective_value(ctx, rid):
 # R10 — every output column is read from its own target's backend variable
 # --------------------------------------------------------------------------------------------
 
+def _yields_variable_positions(ctx, f, call, depth) -> bool:
+    """the call is get_variable_positions(...) or a method of the same class that returns what get_variable_positions returns
+    (directly, or the two maps it merges the results into)"""
+    nm = call_name(call)
+    if nm == "get_variable_positions":
+        return True
+    if depth > 2 or f.cls is None or nm is None or not isinstance(call.func, ast.Attribute):
+        return False
+    g = ctx.repo.lookup_method(f.cls, nm)
+    if g is None:
+        return False
+    inner = [c for c in walk_shallow(g.node) if isinstance(c, ast.Call) and _yields_variable_positions(ctx, g, c, depth + 1)]
+    rets = [r for r in walk_shallow(g.node) if isinstance(r, ast.Return) and r.value is not None]
+    return bool(inner) and bool(rets) and all(r.value in inner or (isinstance(r.value, ast.Tuple) and len(r.value.elts) == 2) for r in rets)
+
+
 def r10_columns_read_from_their_own_backend_variable(ctx, rid):
     """CircuitTemplate.run maps each requested output (for a sweep: one per swept circuit under `all/...`) to (backend variable,
     position).  Reading the recording of ONE target's backend variable - `recordings[backend_of[keys[0]]]` - and taking every
@@ -3092,7 +3108,7 @@ def r10_columns_read_from_their_own_backend_variable(ctx, rid):
     # names that hold the backend-variable map returned by get_variable_positions (second element), directly or merged by update()
     bnames = set()
     for n in walk_shallow(F.node):
-        if isinstance(n, ast.Assign) and isinstance(n.value, ast.Call) and call_name(n.value) == "get_variable_positions":
+        if isinstance(n, ast.Assign) and isinstance(n.value, ast.Call) and _yields_variable_positions(ctx, f0, n.value, 0):
             for t in n.targets:
                 if isinstance(t, ast.Tuple) and len(t.elts) == 2 and isinstance(t.elts[1], ast.Name):
                     bnames.add(t.elts[1].id)
